@@ -109,6 +109,7 @@ def gen_run(seed, tier, i):
             step = dict(partial)
             step["triples"] = st["triples"]
             step["op"] = "dot_bracket"
+            step["route"] = s_ops.choice(solve_engine.ROUTES)
             steps.append(step)
         return {"property": NAME, "kind": "catalogue", "family": st["family"], "steps": steps,
                 "loglevel": ["off", "DEBUG", "INFO", "off"][i % 4]}
@@ -167,9 +168,12 @@ def gen_run(seed, tier, i):
                                   "assign": s_fault.choice(API_ASSIGN), "exc": s_fault.choice(["message", "noargs", "subclass"])}
         if op == "mapping_extract" and s_ops.random() < 0.6:
             op = step["op"] = "mapping_dot_bracket"  # the full entry point is ~50x dearer: keep it rare
+        step["route"] = s_ops.choice(solve_engine.ROUTES)
         if op.startswith("mapping_"):
             step["corpus"] = CORPUS[0] if op == "mapping_extract" else s_ops.choice(CORPUS)
             step["triples"] = []
+            step["find_gaps"] = s_ops.random() < 0.3
+            step["all_dot_brackets"] = s_ops.random() < 0.3
         steps.append(step)
     # clause (e): after the last fault a fresh object with a healthy solver
     st = structures.gen_structure(s_struct, max_stems=6, knotted_bias=1.0)
@@ -265,6 +269,8 @@ def shrink_candidates(run, v):
         yield _with_step(run, focus, dict(step, fault=dict(step["fault"], assign="none")))
     if step.get("via") == "property" and step.get("op") == "dot_bracket":
         yield _with_step(run, focus, dict(step, via="argument"))
+    if step.get("route", "entries") != "entries":
+        yield _with_step(run, focus, dict(step, route="entries"))
     if step.get("fault", {}).get("tie"):
         yield _with_step(run, focus, dict(step, fault=dict(step["fault"], tie=0)))
     if run.get("loglevel", "off") != "off":
